@@ -448,6 +448,16 @@ class Check:
                               "impl_obs": disagree_first[1], "model_obs": disagree_first[2]}
                     path = self.write_replay("no-failing-input-found", disagree_first[0], detail)
                 violations.append((path, " no-failing-input-found"))
+        if self.tier == "thorough" and build.ok:
+            rc, out = _sh(f"timeout 1500 coqchk -silent -o -Q theories VF VF.{self.ident}.Props 2>&1 | tail -30", 1600,
+                          os.path.join(VERIF, "coq"))
+            m = re.search(r"\* Axioms:(.*?)\n\s*\n", out, re.S)
+            report["extra"]["coqchk"] = {"axioms": (m.group(1).strip() if m else "unparsed"),
+                                         "ok": ("CONTEXT SUMMARY" in out)}
+            if "CONTEXT SUMMARY" not in out:
+                path = self.write_replay("no-failing-input-found", None,
+                                         {"no_longer_checks": f"coqchk VF.{self.ident}.Props", "log": out[-2000:]})
+                violations.append((path, " no-failing-input-found"))
         wall = time.time() - t0
         self.write_evidence(build, report, wall, len(violations))
         for ln in known_lines:
